@@ -1,7 +1,470 @@
-//! Checks that are not free-form histories (layout sweep, starvation populations, allocation words).
-pub fn check(_prop: &str, _tier: &str, _threads: usize, _cap: f64) -> Option<String> {
+//! Checks that are enumerations of configurations rather than free-form histories:
+//!  * C03 layout sweep: every (capacity, slot index) pair up to N, two constructors, two ways for
+//!    the last owner to die;
+//!  * C18 allocation words of the unbounded collections: all fill/drain words up to a length,
+//!    each repeated R times, against a fixed logarithmic budget.
+//! Both are run *in addition to* the history scenarios of props.rs and merged into one result.
+
+use std::collections::HashSet;
+use std::fmt::Write as _;
+use std::sync::atomic::{AtomicUsize, Ordering};
+use std::sync::Mutex;
+use std::task::Waker;
+
+use crate::exec::{begin, ops, Cfg, ChildSpec, Op, EXTRA_WAKERS, QUIET};
+use crate::subjects::{Kind, PushHow};
+use crate::world::*;
+use crate::{jlist, jstr};
+
+pub struct Extra {
+    pub executions: u64,
+    pub states: u64,
+    pub transitions: u64,
+    pub samples: Vec<Vec<String>>,
+    /// (scenario, key, msg, rendered ops)
+    pub found: Vec<(String, String, String, Vec<String>)>,
+    pub note: String,
+    pub names: Vec<String>,
+}
+
+pub fn extra(prop: &str, tier: &str, threads: usize) -> Option<Extra> {
+    match prop {
+        "C03" => Some(layout_sweep(if tier == "thorough" { 512 } else { 64 }, threads)),
+        "C18" => Some(alloc_words(tier == "thorough", threads)),
+        _ => None,
+    }
+}
+
+pub fn replay(prop: &str, _tier: &str, scen: &str) -> Option<String> {
+    crate::exec::install_probes();
+    if prop == "C03" && scen.starts_with("layout ") {
+        // "layout cap=.. index=.. ctor=.. last=.."
+        let get = |k: &str| scen.split_whitespace().find_map(|t| t.strip_prefix(k)).unwrap().to_string();
+        let cap: usize = get("cap=").parse().unwrap();
+        let index: usize = get("index=").parse().unwrap();
+        let from_iter = get("ctor=") == "from_iter";
+        let by_value = get("last=") == "wake";
+        let v = sweep_one(cap, index, from_iter, by_value, true);
+        let mut o = String::new();
+        for l in w(|w| w.log.clone()) {
+            let _ = writeln!(o, "{}", l);
+        }
+        let _ = writeln!(o, "-- violations:");
+        for x in &v {
+            let _ = writeln!(o, "[{}] {}: {}", x.prop, x.key, x.msg);
+        }
+        if !v.is_empty() {
+            print!("{}", o);
+            std::process::exit(1);
+        }
+        return Some(o);
+    }
+    if prop == "C18" && scen.starts_with("words ") {
+        let thorough = _tier == "thorough";
+        for (name, cfg, word, reps) in all_words(thorough) {
+            if name == scen {
+                let (v, allocs, peak, budget) = run_word(&cfg, &word, reps, true);
+                let mut o = String::new();
+                let _ = writeln!(o, "{}: {} allocations inside the crate, peak {} children, budget {}", name, allocs, peak, budget);
+                for x in &v {
+                    let _ = writeln!(o, "[{}] {}: {}", x.prop, x.key, x.msg);
+                }
+                if !v.is_empty() {
+                    print!("{}", o);
+                    std::process::exit(1);
+                }
+                return Some(o);
+            }
+        }
+    }
     None
 }
-pub fn replay(_prop: &str, _tier: &str, _scen: &str) -> Option<String> {
-    None
+
+// ------------------------------------------------------------------------------------------------
+// C03: layout sweep
+
+fn sweep_one(cap: usize, index: usize, from_iter: bool, by_value: bool, log_on: bool) -> Vec<Violation> {
+    let mut cfg = Cfg::new("C03", if from_iter { Kind::FubIter(cap) } else { Kind::Fub(cap) });
+    let n = if from_iter { cap } else { index + 1 };
+    cfg.prefill = (0..n).map(|_| ChildSpec::fut(Mode::Gate)).collect();
+    cfg.ops = ops::POLL;
+    QUIET.with(|q| q.set(true));
+    let r = std::panic::catch_unwind(std::panic::AssertUnwindSafe(|| {
+        let mut run = begin(&cfg, &[], log_on);
+        if !run.construct() {
+            return;
+        }
+        // poll until the child in slot `index` has been handed its waker
+        let mut polls = 0;
+        while w(|w| w.children[index].waker.is_none()) {
+            run.do_poll(false);
+            run.post_op();
+            polls += 1;
+            if polls > cap / 8 + 8 {
+                w(|w| w.violate("C03", "child-never-polled", format!("cap {} index {}: child was not polled after {} polls", cap, index, polls)));
+                break;
+            }
+        }
+        let Some(wk) = clone_child_waker(index as u32) else {
+            run.teardown();
+            return;
+        };
+        let nblocks = w(|w| w.blocks.len());
+        if nblocks != 1 {
+            w(|w| w.violate("C03", "unexpected-block-count", format!("cap {}: {} waker blocks allocated for one bounded collection", cap, nblocks)));
+        }
+        let item = wk.data() as usize;
+        EXTRA_WAKERS.with(|e| e.borrow_mut().push(item));
+        // the collection and every other waker die; ours is the last owner
+        run.drop_subject();
+        let others: Vec<Waker> = w(|w| w.children.iter_mut().filter_map(|c| c.waker.take()).collect());
+        for k in others {
+            in_crate(|| drop(k));
+        }
+        w(|w| {
+            w.logf(|| format!("collection and all other wakers dropped; last owner is the waker of slot {}", index));
+            let b = &w.blocks[0];
+            if b.released != 0 {
+                w.violate("C03", "released-while-waker-outstanding", format!("cap {} index {}: block released although a waker is outstanding", cap, index));
+            }
+            let (base, size) = (w.blocks[0].base, w.blocks[0].size);
+            if item < base || item >= base + size {
+                w.violate("C03", "waker-outside-any-block", format!("cap {} index {}: waker item {:#x} outside block {:#x}+{}", cap, index, item, base, size));
+            }
+        });
+        let wakes_before = w(|w| w.task_wakes_total);
+        let polls_before = w(|w| w.child_polls_total);
+        if by_value {
+            EXTRA_WAKERS.with(|e| e.borrow_mut().clear());
+            invoke_child_waker_owned(wk);
+        } else {
+            invoke_child_waker(&wk);
+            w(|w| {
+                if w.blocks[0].released != 0 {
+                    w.violate("C03", "released-while-waker-outstanding", format!("cap {} index {}: block released by wake_by_ref", cap, index));
+                }
+            });
+            EXTRA_WAKERS.with(|e| e.borrow_mut().clear());
+            in_crate(|| drop(wk));
+        }
+        w(|w| {
+            if w.blocks[0].released != 1 {
+                let r = w.blocks[0].released;
+                w.violate("C03", "not-released-by-last-owner", format!("cap {} index {}: after the last waker died the block had been released {} times", cap, index, r));
+            }
+            if w.child_polls_total != polls_before {
+                w.violate("C03", "child-polled-after-collection-drop", "invoking a waker of a dead collection polled a child");
+            }
+            let _ = wakes_before;
+        });
+        run.teardown();
+    }));
+    QUIET.with(|q| q.set(false));
+    if r.is_err() {
+        w(|w| w.violate("C03", "crate-panicked", format!("cap {} index {}: panic during the layout execution", cap, index)));
+    }
+    w(|w| std::mem::take(&mut w.violations)).into_iter().filter(|v| v.prop == "C03").collect()
+}
+
+fn layout_sweep(n: usize, threads: usize) -> Extra {
+    let next = AtomicUsize::new(0);
+    let found: Mutex<Vec<(String, String, String, Vec<String>)>> = Mutex::new(vec![]);
+    let execs = AtomicUsize::new(0);
+    let steps = AtomicUsize::new(0);
+    std::thread::scope(|sc| {
+        for _ in 0..threads {
+            sc.spawn(|| {
+                crate::exec::install_probes();
+                loop {
+                    // big capacities first: they dominate the cost
+                    let k = next.fetch_add(1, Ordering::SeqCst);
+                    if k > n {
+                        break;
+                    }
+                    let cap = n - k;
+                    for index in 0..cap {
+                        for from_iter in [false, true] {
+                            for by_value in [false, true] {
+                                let v = sweep_one(cap, index, from_iter, by_value, false);
+                                execs.fetch_add(1, Ordering::Relaxed);
+                                steps.fetch_add(if from_iter { cap } else { index + 1 } + 4, Ordering::Relaxed);
+                                for x in v {
+                                    let mut f = found.lock().unwrap();
+                                    if f.iter().filter(|e| e.1 == x.key).count() < 3 {
+                                        f.push((
+                                            format!("layout cap={} index={} ctor={} last={}", cap, index, if from_iter { "from_iter" } else { "new" }, if by_value { "wake" } else { "wake_by_ref+drop" }),
+                                            x.key.clone(),
+                                            x.msg.clone(),
+                                            vec![],
+                                        ));
+                                    }
+                                }
+                            }
+                        }
+                    }
+                    if cap == 0 {
+                        // capacity 0: nothing to hand out; construct and drop
+                        for from_iter in [false, true] {
+                            let mut cfg = Cfg::new("C03", if from_iter { Kind::FubIter(0) } else { Kind::Fub(0) });
+                            cfg.ops = ops::POLL;
+                            let mut run = begin(&cfg, &[], false);
+                            if run.construct() {
+                                run.do_poll(false);
+                                run.teardown();
+                            }
+                            execs.fetch_add(1, Ordering::Relaxed);
+                            for x in w(|w| std::mem::take(&mut w.violations)) {
+                                if x.prop == "C03" {
+                                    found.lock().unwrap().push((format!("layout cap=0 ctor={}", from_iter), x.key, x.msg, vec![]));
+                                }
+                            }
+                        }
+                    }
+                }
+            });
+        }
+    });
+    let e = execs.load(Ordering::Relaxed) as u64;
+    Extra {
+        executions: e,
+        states: e,
+        transitions: steps.load(Ordering::Relaxed) as u64,
+        samples: vec![vec![
+            format!("layout cap={} index={} ctor=new last=wake: push {} children, poll until slot {} has its waker, clone it, drop the collection and every other waker, wake() the clone, expect exactly one release", n, n - 1, n, n - 1),
+        ]],
+        found: found.into_inner().unwrap(),
+        note: format!("layout sweep: all (capacity, slot) pairs with capacity 0..={} x {{new, from_iter}} x {{wake_by_ref+drop, wake}}", n),
+        names: vec![format!("layout sweep cap 0..={} (exhaustive over slots, 2 constructors, 2 last-owner deaths)", n)],
+    }
+}
+
+// ------------------------------------------------------------------------------------------------
+// C18: allocation words of the unbounded collections
+
+#[derive(Clone, Copy, Debug, PartialEq, Eq, Hash)]
+pub enum Order {
+    Fifo,
+    Lifo,
+    Alternate,
+}
+#[derive(Clone, Copy, Debug, PartialEq, Eq, Hash)]
+pub enum Macro {
+    FillTo(usize),
+    DrainTo(usize, Order),
+}
+
+fn budget(peak: usize) -> u64 {
+    let lg = (usize::BITS - peak.leading_zeros()) as u64; // = ceil(log2(peak + 1))
+    4 * lg + 16
+}
+
+fn run_word(cfg: &Cfg, word: &[Macro], reps: usize, log_on: bool) -> (Vec<Violation>, u64, usize, u64) {
+    QUIET.with(|q| q.set(true));
+    let mut peak = 0usize;
+    let r = std::panic::catch_unwind(std::panic::AssertUnwindSafe(|| {
+        let mut run = begin(cfg, &[], log_on);
+        reset_crate_allocs();
+        if !run.construct() {
+            return;
+        }
+        let is_merge = cfg.kind.is_merge();
+        for _ in 0..reps {
+            for m in word {
+                match *m {
+                    Macro::FillTo(k) => {
+                        while w(|w| w.held()) < k {
+                            run.do_push(0, PushHow::Back, false);
+                            run.post_op();
+                        }
+                    }
+                    Macro::DrainTo(k, order) => {
+                        let mut live: Vec<u32> = w(|w| (0..w.children.len() as u32).filter(|&i| {
+                            let c = &w.children[i as usize];
+                            c.accepted && c.drops == 0 && !c.completed && !c.released && !c.fed
+                        }).collect());
+                        let n = live.len().saturating_sub(k);
+                        let victims: Vec<u32> = match order {
+                            Order::Fifo => live.drain(..n).collect(),
+                            Order::Lifo => live.drain(live.len() - n..).collect(),
+                            Order::Alternate => {
+                                let mut v = vec![];
+                                let mut i = 0;
+                                while v.len() < n && i < live.len() {
+                                    v.push(live[i]);
+                                    i += 2;
+                                }
+                                let mut j = 1;
+                                while v.len() < n && j < live.len() {
+                                    v.push(live[j]);
+                                    j += 2;
+                                }
+                                v
+                            }
+                        };
+                        // make sure every child has been polled once (so that it owns a waker), then complete
+                        for _ in 0..(w(|w| w.held()) / 32 + 3) {
+                            run.do_poll(false);
+                            run.post_op();
+                            if run.last_out_kind != 3 {
+                                break;
+                            }
+                        }
+                        for v in victims {
+                            if is_merge {
+                                run.apply(&Op::Feed(v));
+                            } else {
+                                run.apply(&Op::Complete(v));
+                            }
+                        }
+                        let mut guard = 0;
+                        loop {
+                            run.do_poll(false);
+                            run.post_op();
+                            guard += 1;
+                            if run.last_out_kind != 3 && !(run.last_out_kind == 1 && w(|w| w.last_poll_woken)) {
+                                break;
+                            }
+                            if guard > 100_000 {
+                                break;
+                            }
+                        }
+                    }
+                }
+                let held = w(|w| w.children.iter().filter(|c| c.accepted && c.drops == 0).count() + w.toks.iter().filter(|t| t.handed == 0 && t.drops == 0).count());
+                peak = peak.max(held);
+            }
+        }
+        let allocs = crate_allocs();
+        let b = budget(peak);
+        if allocs > b {
+            w(|w| {
+                w.violate(
+                    "C18",
+                    "allocations-exceed-log-budget",
+                    format!("{:?}: {} allocations inside the crate over {} repetitions of the word, peak {} children held, budget 4*ceil(log2(peak+1))+16 = {}", cfg.kind, allocs, reps, peak, b),
+                )
+            });
+        }
+        run.teardown();
+    }));
+    QUIET.with(|q| q.set(false));
+    if r.is_err() {
+        w(|w| w.violate("C18", "crate-panicked", "panic while running an allocation word"));
+    }
+    let allocs = crate_allocs();
+    let v: Vec<Violation> = w(|w| std::mem::take(&mut w.violations)).into_iter().filter(|v| v.prop == "C18").collect();
+    (v, allocs, peak, budget(peak))
+}
+
+fn words_over(ks: &[usize], len: usize) -> Vec<Vec<Macro>> {
+    // sequences of targets t1..tL, t_i != t_{i-1}, starting from 0 held; a decreasing step carries an order
+    let mut out: Vec<(Vec<Macro>, usize)> = vec![(vec![], 0)];
+    let mut all = vec![];
+    for _ in 0..len {
+        let mut next = vec![];
+        for (wd, cur) in &out {
+            for &k in ks {
+                if k == *cur {
+                    continue;
+                }
+                if k > *cur {
+                    let mut w2 = wd.clone();
+                    w2.push(Macro::FillTo(k));
+                    next.push((w2, k));
+                } else {
+                    for o in [Order::Fifo, Order::Lifo, Order::Alternate] {
+                        let mut w2 = wd.clone();
+                        w2.push(Macro::DrainTo(k, o));
+                        next.push((w2, k));
+                    }
+                }
+            }
+        }
+        for (wd, _) in &next {
+            all.push(wd.clone());
+        }
+        out = next;
+    }
+    all
+}
+
+fn all_words(thorough: bool) -> Vec<(String, Cfg, Vec<Macro>, usize)> {
+    let (len, reps) = if thorough { (5, 64) } else { (4, 16) };
+    let mut v = vec![];
+    let subjects: Vec<(Kind, Vec<usize>, usize)> = vec![
+        (Kind::FuCap(1), vec![0, 1, 3, 4, 9], len),
+        (Kind::FoCap(1), vec![0, 1, 3, 4, 9], len),
+        (Kind::FuNew, if thorough { vec![0, 33, 70, 140] } else { vec![0, 33, 70] }, len.min(4)),
+        (Kind::FoNew, vec![0, 33, 70], len.min(if thorough { 4 } else { 3 })),
+        (Kind::Mu(0), if thorough { vec![0, 33, 70, 140] } else { vec![0, 33, 70] }, len.min(4)),
+        (Kind::FuCap(2), vec![0, 2, 7], len),
+    ];
+    for (kind, ks, l) in subjects {
+        for word in words_over(&ks, l) {
+            let mut cfg = Cfg::new("C18", kind);
+            cfg.specs = vec![if kind.is_merge() { ChildSpec::stream("P") } else { ChildSpec::fut(Mode::Gate) }];
+            cfg.ops = ops::POLL | ops::PUSH | ops::COMPLETE;
+            cfg.horizon = 10;
+            let name = format!("words {:?} x{} {:?}", kind, reps, word);
+            v.push((name, cfg, word, reps));
+        }
+    }
+    v
+}
+
+fn alloc_words(thorough: bool, threads: usize) -> Extra {
+    let words = all_words(thorough);
+    let next = AtomicUsize::new(0);
+    let found: Mutex<Vec<(String, String, String, Vec<String>)>> = Mutex::new(vec![]);
+    let outcomes: Mutex<HashSet<(u64, usize)>> = Mutex::new(HashSet::new());
+    let steps = AtomicUsize::new(0);
+    let maxratio: Mutex<(u64, u64, String)> = Mutex::new((0, 1, String::new()));
+    std::thread::scope(|sc| {
+        for _ in 0..threads {
+            sc.spawn(|| {
+                crate::exec::install_probes();
+                loop {
+                    let i = next.fetch_add(1, Ordering::SeqCst);
+                    if i >= words.len() {
+                        break;
+                    }
+                    let (name, cfg, word, reps) = &words[i];
+                    let (v, allocs, peak, b) = run_word(cfg, word, *reps, false);
+                    steps.fetch_add(word.len() * reps, Ordering::Relaxed);
+                    outcomes.lock().unwrap().insert((allocs, peak));
+                    {
+                        let mut m = maxratio.lock().unwrap();
+                        if allocs * m.1 > m.0 * b {
+                            *m = (allocs, b, name.clone());
+                        }
+                    }
+                    for x in v {
+                        let mut f = found.lock().unwrap();
+                        if f.len() < 5 {
+                            f.push((name.clone(), x.key, x.msg, word.iter().map(|m| format!("{:?}", m)).collect()));
+                        }
+                    }
+                }
+            });
+        }
+    });
+    let m = maxratio.into_inner().unwrap();
+    Extra {
+        executions: words.len() as u64,
+        states: outcomes.into_inner().unwrap().len() as u64,
+        transitions: steps.load(Ordering::Relaxed) as u64,
+        samples: words.iter().step_by((words.len() / 3).max(1)).take(3).map(|(n, _, _, _)| vec![n.clone()]).collect(),
+        found: found.into_inner().unwrap(),
+        note: format!("allocation words: {} words, closest to the budget: {} allocations of {} allowed in {}", words.len(), m.0, m.1, m.2),
+        names: vec![format!("allocation words over FillTo/DrainTo(order) for FuCap(1), FoCap(1), FuCap(2), FuNew, FoNew, MergeUnbounded ({} words)", words.len())],
+    }
+}
+
+pub fn extra_json(e: &Extra) -> String {
+    let fs: Vec<String> = e
+        .found
+        .iter()
+        .map(|(s, k, m, ops)| format!("{{\"scenario\":{},\"key\":{},\"msg\":{},\"choices\":[],\"ops\":{},\"confirmed\":true,\"log\":[]}}", jstr(s), jstr(k), jstr(m), jlist(ops)))
+        .collect();
+    fs.join(",")
 }
